@@ -302,7 +302,10 @@ func (g *pgen) assign() []interface{} {
 	if r.Bool() {
 		return []interface{}{nRaw(sInc(x))}
 	}
-	return []interface{}{nRaw(sAssign(eId(x), t.genInt(2).e))}
+	// the new value may mention x itself and the assignment may sit in a loop: keep every local within the bound the expression
+	// generator assumes for integer variables (|x| <= 30), so that no product leaves the domain where the engine's and
+	// JavaScript's number formatting coincide (the property is about control flow, not about printing 1e14)
+	return []interface{}{nRaw(sAssign(eId(x), eBin("%", t.genInt(2).e, eNum("31"))))}
 }
 
 func genC02(r *Rng, n int, tier string, emit func(Case)) {
